@@ -19,6 +19,7 @@ for n in range(1, 11):
     HARNESSES['dispatch_arity_%d' % n] = ('basis_function', 'complete', 'loop-free; all u64 parameter values, symbolic position')
 HARNESSES['cbr_rejects_bad_p_f64'] = ('statistics', 'complete', 'loop-free prefix; all f64 bit patterns outside (0,1) or non-finite; code after the assertion must be unreachable')
 HARNESSES['cbr_rejects_bad_p_f32'] = ('statistics', 'complete', 'loop-free prefix; all f32 bit patterns outside (0,1) or non-finite; code after the assertion must be unreachable')
+HARNESSES['stats_error_from_model_error'] = ('statistics', 'complete', 'loop-free; all payload values of two ModelError variants')
 HARNESSES['is_all_finite_2x2'] = ('levmar', 'bounded', '2 x 2 matrix, all f64 bit patterns, unwind 6')
 HARNESSES['to_vector_colmajor_3x2'] = ('levmar', 'bounded', '3 x 2 matrix, symbolic entries and position, unwind 8')
 HARNESSES['copy_matrix_to_column_2x3'] = ('levmar', 'bounded', '2 x 3 source (three right-hand sides) into a 6 x 2 target, symbolic entries and position, unwind 8')
